@@ -9,6 +9,7 @@ _TAG = re.compile(r"/((?:C\d\d,?)+):")        # a clause may carry several prope
 ALIASES = {
     "prtpy/partitioning/greedy.py::greedy": ["greedy"],
     "prtpy/partitioning/roundrobin.py::roundrobin": ["roundrobin"],
+    "prtpy/partitioning/multifit.py::multifit": ["multifit"],
     "prtpy/packing/first_fit.py::online": ["ff", "ffd"],
     "prtpy/packing/first_fit.py::decreasing": ["ffd"],
     "prtpy/packing/best_fit.py::online": ["bf", "bfd"],
@@ -20,6 +21,7 @@ ALIASES = {
 }
 
 PART_HEUR = [("contracts.partition_heur", "greedy"), ("contracts.partition_heur", "roundrobin")]
+MULTIFIT = [("contracts.partition_heur", "multifit")]
 FIT = [("contracts.packing_fit", "first_fit_online"), ("contracts.packing_fit", "best_fit_online"), ("contracts.packing_fit", "ffd"), ("contracts.packing_fit", "bfd")]
 BINNERS = None
 
